@@ -229,8 +229,8 @@ package gkvlite
 //@   ensures [C19] one-read-per-position-tried: result == nil && s.size > 0 ==> io.reads == old(io.reads) + (old(s.size) - s.size) + 1
 //@   loop 0 invariant [C19] one-read-per-position-so-far: io.reads == old(io.reads) + (old(s.size) - s.size)
 //@   loop 0 modifies s.size, content(rootsEnd), ghost io.fails, ghost io.reads, ghost io.valbytes, ghost src
-//@   loop 0 invariant s.size <= old(s.size) && io.fails == old(io.fails)
-//@   loop 0 invariant forall p :: s.size < p && p <= old(s.size) && p > 44 ==> !magicEndAt(fbytes[s.file], p)
+//@   loop 0 invariant [C07,C09] progress: s.size <= old(s.size) && io.fails == old(io.fails)
+//@   loop 0 invariant [C03,C08,C02] skipped-none-so-far: forall p :: s.size < p && p <= old(s.size) && p > 44 ==> !magicEndAt(fbytes[s.file], p)
 //@   loop 0 decreases s.size
 
 //@ func (*Store).readRootsEnd
